@@ -268,6 +268,7 @@ def check(ctx):
                            f"removing an AVP of length {L}, padding {P} subtracts {L + (P or 0)}",
                            f"removing an AVP of length {L} and padding {P} changes the Message Length by {got - 100} instead of "
                            f"-{L + (P or 0)} (append added {L + (P or 0)})", key=f"arith:{L}:{P}")
+    length_arith_all(ctx, repo, msg)
     # grouped: after removal the data buffer is rebuilt from the remaining members
     gp = ctx.need(grp.methods.get("pop"), "GroupedType.pop")
     src = ast.unparse(gp)
@@ -298,3 +299,65 @@ def _enclosing_block(fn, stmt):
             if isinstance(b, list) and stmt in b:
                 return b
     return fn.body
+
+
+def length_arith_all(ctx, repo, msg):
+    # every other method that adjusts the Message Length incrementally: the adjustment for each AVP involved must be
+    # +/-(length + padding) - probed with the abstract evaluator (length only, padding only)
+    for fname, fn in sorted(msg.methods.items()):
+        if fname in ("refresh", "_load", "pop", "cleanup"):
+            continue
+        for st_ in [x for x in walk_no_nested(fn) if isinstance(x, ast.Assign) and ast.unparse(x.targets[0]) == "self.header.length"]:
+            body = _enclosing_block(fn, st_)
+            i1 = body.index(st_)
+            i0 = next((i for i, x in enumerate(body[:i1 + 1]) if "self.header.get_length()" in ast.unparse(x)), None)
+            if i0 is None:
+                continue
+            seg = [_rewrite_store(x, "self.header.length", "__len") for x in body[i0:i1 + 1]]
+            avs = set()
+            for x in ast.walk(ast.Module(body=body[i0:i1 + 1], type_ignores=[])):
+                if isinstance(x, ast.Call):
+                    if isinstance(x.func, ast.Attribute) and x.func.attr in ("get_length", "get_padding_length") and isinstance(x.func.value, ast.Name):
+                        avs.add(x.func.value.id)
+                    if call_name(x) == "len" and x.args and isinstance(x.args[0], ast.Name):
+                        avs.add(x.args[0].id)
+            if not avs:
+                continue
+
+            def probe(Ls, Ps):
+                def special(e):
+                    t = ast.unparse(e)
+                    if t == "self.header.get_length()":
+                        return 100000
+                    for v in avs:
+                        if t in (f"{v}.get_length()", f"len({v})"):
+                            return Ls.get(v, 0)
+                        if t == f"{v}.get_padding_length()":
+                            return Ps.get(v)
+                    return NotImplemented
+                outs = set()
+                for env2, term, val in run_paths(seg, {}, special, None):
+                    outs.add(env2.get("__len", UNK) if env2.get("__len", UNK) is not UNK else "UNK")
+                return outs
+            base = probe({}, {})
+            verdict, why = True, ""
+            if base != {100000}:
+                if "UNK" in base:
+                    ctx.undecided("R-SIB/length-arith", f"{msg.qual}.{fname}", msg.where(st_), "length expression not evaluable", key=f"arith:{fname}")
+                    continue
+                verdict, why = False, f"with zero-size AVPs the length changes to {sorted(base)} - 100000"
+            for v in sorted(avs):
+                dl = probe({v: 1000}, {})
+                dp = probe({}, {v: 3})
+                if len(dl) != 1 or len(dp) != 1 or "UNK" in dl or "UNK" in dp:
+                    verdict, why = False, f"adjustment for `{v}` not single-valued ({dl}, {dp})"
+                    continue
+                dl, dp = dl.pop() - 100000, dp.pop() - 100000
+                if dl not in (1000, -1000) or dp != (3 if dl > 0 else -3):
+                    verdict = False
+                    why = (f"for `{v}` the Message Length changes by {dl:+d} per 1000 octets of AVP length but by {dp:+d} for 3 "
+                           f"octets of padding: length and padding of an AVP must enter with the same sign")
+            ctx.decide(verdict, "R-SIB/length-arith", f"{msg.qual}.{fname}", msg.where(st_),
+                       f"incremental adjustment uses length + padding of {sorted(avs)}",
+                       f"{fname} adjusts the Message Length incrementally but {why}: the length field no longer equals the "
+                       f"serialised size when the AVPs involved need padding", key=f"arith:{fname}")
